@@ -115,10 +115,8 @@ func sameTree(a, b *Expr) bool {
 	if a.Op != b.Op || len(a.Args) != len(b.Args) {
 		return false
 	}
-	if isBinOp(a.Op) || a.Op == "not" {
-		if !sameTree(a.L, b.L) || !sameTree(a.R, b.R) {
-			return false
-		}
+	if !sameTree(a.L, b.L) || !sameTree(a.R, b.R) {
+		return false
 	}
 	for i := range a.Args {
 		if !sameTree(a.Args[i], b.Args[i]) {
